@@ -168,7 +168,12 @@ def _build_evaluator(
         VectorUnarySum,
         VectorExpressionSum,
     )
-    from optyx.core.matrices import QuadraticForm
+    from optyx.core.matrices import (
+        QuadraticForm,
+        MatrixSum,
+        FrobeniusNorm,
+        _matrix_entries,
+    )
 
     if isinstance(expr, Constant):
         value = expr.value
@@ -232,6 +237,20 @@ def _build_evaluator(
         Q = expr.matrix
         vec_fn = _build_vector_evaluator(expr.vector, var_indices)
         return lambda x, vf=vec_fn, Q=Q: float(vf(x) @ Q @ vf(x))
+
+    elif isinstance(expr, MatrixSum):
+        # sum of all matrix entries (row-major, shared entries counted each time)
+        elem_fns = [
+            _build_evaluator(e, var_indices) for e in _matrix_entries(expr.matrix)
+        ]
+        return lambda x, fns=elem_fns: float(sum(f(x) for f in fns))
+
+    elif isinstance(expr, FrobeniusNorm):
+        # sqrt of the sum of squared entries
+        elem_fns = [
+            _build_evaluator(e, var_indices) for e in _matrix_entries(expr.matrix)
+        ]
+        return lambda x, fns=elem_fns: float(np.sqrt(sum(f(x) ** 2 for f in fns)))
 
     elif isinstance(expr, VectorPowerSum):
         # sum(x ** k) - efficient numpy implementation
@@ -333,8 +352,12 @@ def _build_evaluator_iterative(
         VectorSum,
         VectorVariable,
         VectorExpressionSum,
+        ElementwisePower,
+        VectorPowerSum,
+        ElementwiseUnary,
+        VectorUnarySum,
     )
-    from optyx.core.matrices import QuadraticForm
+    from optyx.core.matrices import QuadraticForm, MatrixSum, FrobeniusNorm
 
     # Stack for iterative traversal: (expression, phase, children_fns)
     # phase 0: first visit, phase 1: children processed
@@ -428,6 +451,21 @@ def _build_evaluator_iterative(
             Q = node.matrix
             vec_fn = _build_vector_evaluator(node.vector, var_indices)
             result_stack.append(lambda x, vf=vec_fn, Q=Q: float(vf(x) @ Q @ vf(x)))
+            continue
+
+        # Vectorised / matrix reductions - flat nodes, reuse the node builders
+        if isinstance(
+            node,
+            (
+                VectorPowerSum,
+                VectorUnarySum,
+                ElementwisePower,
+                ElementwiseUnary,
+                MatrixSum,
+                FrobeniusNorm,
+            ),
+        ):
+            result_stack.append(_build_evaluator(node, var_indices))
             continue
 
         # Binary operation
